@@ -43,6 +43,9 @@ func pqMethod(p *core.Prog, name string) *ssa.Function {
 			return fn
 		}
 	}
+	if p.Resolve != nil {
+		return p.Resolve(pqRel, "Queue", name)
+	}
 	return nil
 }
 
@@ -344,7 +347,7 @@ func c17R3(p *core.Prog, r *core.Report, pi *pqInfo) {
 			return false
 		}
 		g := core.Callee(c)
-		return g != nil && g.Pkg() != nil && g.Pkg().Path() == modPath(pqRel) && g.Name() == "release"
+		return g != nil && g.Pkg() != nil && g.Pkg().Path() == modPath(pqRel) && canonObj(g) == "release"
 	}
 	removedFrom := func(in ssa.Instruction) string {
 		f := pi.storeField(in)
@@ -369,7 +372,7 @@ func c17R3(p *core.Prog, r *core.Report, pi *pqInfo) {
 		v := core.ReturnOperand(ret, 0)
 		isRel := false
 		for _, oc := range originCalls(v) {
-			if g := core.Callee(oc); g != nil && g.Pkg() != nil && g.Pkg().Path() == modPath(pqRel) && g.Name() == "releaseFn" {
+			if g := core.Callee(oc); g != nil && g.Pkg() != nil && g.Pkg().Path() == modPath(pqRel) && canonObj(g) == "releaseFn" {
 				isRel = true
 			}
 		}
@@ -490,7 +493,7 @@ func c17R5(p *core.Prog, r *core.Report, pi *pqInfo) {
 	// one round (blocking acquire, try-acquires, back-off) may be an unexported helper called from the retry loop
 	unit := fn
 	for _, f := range sortedFuncs(core.HelpersExcept(fn, 2, func(h *ssa.Function) bool {
-		return h.Name() == "Acquire" || h.Name() == "TryAcquire" || h.Name() == "release"
+		return h.Name() == "Acquire" || h.Name() == "TryAcquire" || canon(h) == "release"
 	})) {
 		f := f
 		core.Calls(f, func(c ssa.CallInstruction) {
@@ -935,7 +938,7 @@ func c17R8(p *core.Prog, r *core.Report) {
 		return false
 	}
 	for _, f := range sortedFuncs(scope) {
-		if f.Name() == "release" {
+		if canon(f) == "release" {
 			continue // release removes one entry equal to the one given: identical entries are interchangeable there
 		}
 		core.Calls(f, func(c ssa.CallInstruction) {
